@@ -1,7 +1,7 @@
 (* C01 -- parsing and rendering never panic, abort or hang.  Statements only; proofs in
    proofs/{BlockProofs,InlineProofs,RegexProofs,CoreProofs,RenderProofs}.v; see DESIGN.md section 6 C01. *)
 From Coq Require Import String.
-From MdIt Require Import Prims Tables Ruler Tree Render Block Inline Core Dump Dispatch BlockProofs BlockSafeProofs InlineProofs CoreProofs PairsProofs RenderTotalProofs.
+From MdIt Require Import Prims Tables Ruler Tree Render Block Inline Core Dump Dispatch BlockProofs RefSafeProofs BlockSafeProofs InlineProofs CoreProofs PairsProofs RenderTotalProofs.
 Local Open Scope string_scope.
 Local Open Scope list_scope.
 Local Open Scope N_scope.
@@ -84,28 +84,36 @@ Example C01_shipped_chains : forallb chain_ok ["C"; "CsW"; "CsWS5"; "SCs"; "5sWC
 Proof. vm_compute. reflexivity. Qed.
 
 (* the hypothesis is needed: without fragments-join (removed by the user) a left-over delimiter has no renderer *)
-(* THE BLOCK PASS NEVER PANICS (BlockSafeProofs): for every document (any list of line texts), every chain of block rules
-   that does not contain the reference-definition rule (any order, custom rules included), every nesting limit and every
-   amount of recursion fuel, block_parse does not end in an index / slice / unwrap / overflow / assertion failure; with
-   the termination theorem: it returns.  Invariant: the line table has at least b_max entries, each entry's first
-   non-blank offset lies within its text; every rule keeps the table, ends inside (start, b_max] when it accepts and
-   returns the state unchanged when it declines (containers: quote scan, list item loop, nested tokenizer).
-   NOT covered: the reference-definition rule (the line count it reports must be bounded by the line feeds of the text
-   it was given, which for the model's byte strings needs a UTF-8 validity argument through trim) and the inline pass. *)
+(* THE BLOCK PASS NEVER PANICS (BlockSafeProofs, RefSafeProofs): for every document (any list of line texts that hold no
+   line feed -- the lines of every source text do: texts_of_lf_free), EVERY chain of block rules (any order, the
+   reference-definition rule and custom rules included), every nesting limit and every amount of recursion fuel,
+   block_parse does not end in an index / slice / unwrap / overflow / assertion failure; with the termination theorem:
+   it returns.  Invariant: the line table has at least b_max entries, each entry's first non-blank offset lies within
+   its text; every rule keeps the table, ends inside (start, b_max] when it accepts and returns the state unchanged when
+   it declines (containers: quote scan, list item loop, nested tokenizer; reference definitions: the reported line
+   count is bounded by the line feeds of the scanned text).  NOT covered: the inline pass. *)
 Theorem C01_block_pass_never_panics : forall fuel cfg texts root refs,
-  Forall (fun r => r <> R_REF) (bc_chain cfg) -> forall k, block_parse fuel cfg texts root refs <> inl (Panic k).
+  Forall (fun t => cl t = 0) texts -> forall k, block_parse fuel cfg texts root refs <> inl (Panic k).
 Proof. exact block_parse_never_panics. Qed.
 
 Theorem C01_block_pass_returns : forall fuel cfg texts root refs,
-  Forall (fun r => r <> R_REF) (bc_chain cfg) -> (N.to_nat (bc_maxnest cfg) < fuel)%nat ->
+  Forall (fun t => cl t = 0) texts -> (N.to_nat (bc_maxnest cfg) < fuel)%nat ->
   exists x, block_parse fuel cfg texts root refs = inr x.
 Proof. exact block_parse_returns. Qed.
 
-(* non-vacuity: the CommonMark block chain without the reference rule satisfies the hypothesis, and a nested document goes through *)
+Theorem C01_block_pass_of_source_returns : forall fuel cfg src root refs,
+  (N.to_nat (bc_maxnest cfg) < fuel)%nat -> exists x, block_parse fuel cfg (LineProofs.texts_of src) root refs = inr x.
+Proof. exact block_pass_of_source_returns. Qed.
+
+Theorem C01_reference_lines_bounded : forall s label href title lines,
+  parse_reference s = Some (label, href, title, lines) -> lines <= cl s.
+Proof. exact parse_reference_lines. Qed.
+
+(* non-vacuity: a nested document with a reference definition goes through the block pass of the CommonMark chain *)
 Example C01_block_pass_nonvacuous :
-  forallb (fun r => negb (r =? R_REF)) [R_CODE; R_FENCE; R_QUOTE; R_HR; R_LIST; R_HEADING; R_LHEADING; R_PARA; R_HTMLBLOCK] = true /\
-  is_ok (block_parse 20 (BCfg [R_CODE; R_FENCE; R_QUOTE; R_HR; R_LIST; R_HEADING; R_LHEADING; R_PARA] 100 [])
-           [bs "> - a"; bs ">   ```"; bs ">"; bs "1. b"; bs "   # c"; bs "---"] (mk KRoot None []) []) = true.
+  is_ok (block_parse 20 (BCfg [R_CODE; R_FENCE; R_QUOTE; R_HR; R_LIST; R_REF; R_HEADING; R_LHEADING; R_PARA] 100 [])
+           [bs "> - a"; bs ">   ```"; bs ">"; bs "1. b"; bs "   # c"; bs "---"; bs "[r]: /u"; bs " 't'"; bs "x"] (mk KRoot None []) []) = true
+  /\ forallb (fun t => cl t =? 0) [bs "> - a"; bs "[r]: /u"] = true.
 Proof. vm_compute. split; reflexivity. Qed.
 
 Example C01_render_needs_join :
@@ -129,3 +137,5 @@ Print Assumptions C01_render_never_panics.
 Print Assumptions C01_shipped_pairs.
 Print Assumptions C01_block_pass_never_panics.
 Print Assumptions C01_block_pass_returns.
+Print Assumptions C01_block_pass_of_source_returns.
+Print Assumptions C01_reference_lines_bounded.
